@@ -28,6 +28,8 @@ Step(e) ==
             ELSE Do(Finish(e.id))
       [] e.ev = "op" /\ e.op = "cut_pub" ->
             IF ~Quiet THEN Flag({"C01", "C12"}, "published_message_not_delivered") ELSE Do(CutPub(e.id))
+      [] e.ev = "op" /\ e.op = "cut_pub_mid" ->
+            IF ~Quiet THEN Flag({"C01", "C12"}, "published_message_not_delivered") ELSE Do(CutPubMid(e.id, e.m))
       [] e.ev = "op" /\ e.op = "open_sub" ->
             IF ~e.synced THEN Flag({"C01"}, "subscription_never_took_effect") ELSE Do(OpenSub(e.id))
       [] e.ev = "op" /\ e.op = "cut_sub" ->
